@@ -8,7 +8,7 @@ from .engine import Harness, Unit, Crate, VERIF
 
 def main(path, repo):
     rec = json.load(open(path))
-    work = os.path.join(VERIF, "work", "replay_cmd")
+    work = os.path.join(E.WORK, "replay_cmd")
     src = os.path.join(work, "src")
     E.snapshot_repo(repo, src)
     dep, lock = os.path.join(src, "bitbybit"), os.path.join(src, "Cargo.lock")
